@@ -280,6 +280,13 @@ def serve_facts(sr):
         f["wsOffSendWaits"] = bool(mm and re.fullmatch(r"(?:let _\w* = |_ = )?outbound_tx\.blocking_send\(response\)(?:\.ok\(\))?;", mm.group(1)))
     else:
         f["wsOffRunsAlways"] = f["wsStampOff"] = f["wsOffSendWaits"] = False
+    # saturated cap: the branch must leave the function (a notify is dropped, a request is answered), never fall through
+    nso = norm(so)
+    f["wsSaturationReturns"] = bool(re.search(r"try_acquire_owned\(\) \{ Ok\(permit\) => Some\(permit\), Err\(_\) => \{ (?:[^{}]|\{[^{}]*\})*? if notify \{ return true; \} let response = create_error_response_like\( &request, ErrorCode::ResourceExhausted, [^;]*\); return conn\.outbound_tx\.send\(response\)\.await\.is_ok\(\); \} \}, None => None, \};", nso))
+    # struct mounts: the segment collector (stack of STACK_SEGS, then a Vec) keeps every segment
+    ds = norm(fn_body(srv, "dispatch_struct_segments"))
+    f["structSegmentsKept"] = bool(re.search(r"for seg in trimmed\.split\(' '\) \{ if let Some\(v\) = overflow\.as_mut\(\) \{ v\.push\(seg\); \} else if count < STACK_SEGS \{ stack\[count\] = seg; count \+= 1; \} else \{ let mut v = Vec::with_capacity\([^;]*\); v\.extend_from_slice\(&stack\); v\.push\(seg\); overflow = Some\(v\); \} \} match overflow\.as_deref\(\) \{ Some\(v\) => handler\.repe_handle\(v, body\), None => handler\.repe_handle\(&stack\[\.\.count\], body\), \}", ds)) \
+        and bool(re.search(r"const STACK_SEGS: usize = 16;", ds))
     hc = fn_body(ws, "handle_connection_with_config")
     m = re.search(r"let\s+reader_result\s*=\s*\{", hc)
     if m:
@@ -321,7 +328,7 @@ def render(f):
     L.append("def entryFacts : EntryFacts := ⟨[" + ", ".join("." + k for k in f["viewOverrides"]) + f"], {b(f['pipelineOverridesView'])}, {b(f['offReaderOverridesView'])}, {b(f['pipelineForwardsExecution'])}⟩")
     sv = f["serve"]
     order = ["viewNotifySilent", "ownedNotifySilent", "viewRejectNotifySilent", "wsRejectNotifySilent", "viewHandlerCalls", "ownedHandlerCalls",
-             "tcpEchoHelper", "atcpEchoHelper", "wsStampInline", "wsStampOff", "wsOffRunsAlways", "tcpFlushEach", "atcpFlushEach", "wsSendInOrder", "wsDrainOnExit", "wsOffSendWaits"]
+             "tcpEchoHelper", "atcpEchoHelper", "wsStampInline", "wsStampOff", "wsOffRunsAlways", "tcpFlushEach", "atcpFlushEach", "wsSendInOrder", "wsDrainOnExit", "wsOffSendWaits", "wsSaturationReturns", "structSegmentsKept"]
     L.append("def serveFacts : ServeFacts :=\n  { " + "\n    ".join(f"{k} := {sv[k] if isinstance(sv[k], int) and not isinstance(sv[k], bool) else b(sv[k])}" for k in order) + " }")
     L.append("end Repe.Gen")
     return "\n".join(L) + "\n"
